@@ -86,6 +86,9 @@ func (c *tcpConsumer) Consume(p Pack) {
 		defer buffers.Put(buf)
 
 		p2.Write(buf, c.transport.Channels[:])
+		if buf.Len() == 0 { // 未订阅的通道，没有帧可发送
+			return
+		}
 
 		c.lockW.Lock()
 		_, err = c.wsconn.Write(buf.Bytes())
